@@ -12,6 +12,7 @@ import (
 	"sort"
 	"strings"
 	"sync"
+	"time"
 
 	"github.com/spf13/viper"
 	wrgl "github.com/wrgl/wrgl/cmd/wrgl"
@@ -132,6 +133,7 @@ type syncInput struct {
 	ForcedDsts []string `json:"forcedDsts"`  // fetch with explicit per-branch refspecs: destinations whose refspec carries '+'
 	ShallowClone bool   `json:"shallowClone"`
 	MainOnly bool       `json:"mainOnly"`
+	ClockSkew bool      `json:"clockSkew"` // the remote's commits carry decreasing timestamps
 	RefsLost bool       `json:"refsLost"` // the remote-tracking ref of main was deleted locally (an earlier fetch died after its last object write, before its ref write)
 	StreamResets int    `json:"streamResets"` // fetch / pull: the first k packfile responses are cut half way with an HTTP/2 stream error
 	ExpTag bool         `json:"expTag"` // the remote has a tag on the second branch, outside the fetched refspecs
@@ -216,6 +218,17 @@ func runSyncCase(seed int64, thorough bool) (*syncInput, Res) {
 		in.DenyNonFF = r.Intn(2) == 0
 		srv := NewRefServer(sdb, srs, in.MaxPack, in.DenyNonFF)
 		defer srv.Close()
+		// 1 in 3: the remote's clock runs backwards (every new commit is an hour OLDER than the one before)
+		in.ClockSkew = r.Intn(3) == 0
+		tick := 0
+		commitClock = func() time.Time {
+			tick++
+			if in.ClockSkew {
+				return fixedTime.Add(-time.Duration(tick) * time.Hour)
+			}
+			return fixedTime
+		}
+		defer func() { commitClock = func() time.Time { return fixedTime } }()
 		common := 1 + r.Intn(3)
 		baseTables := []*TableSpec{}
 		for i := 0; i < common; i++ {
